@@ -19,6 +19,7 @@ import (
 type cfg14 struct {
 	w1, w2      []wop
 	updatesOnly bool
+	w1b         []wop // a second goroutine operating on t1 (Reset racing Remove/Add)
 }
 
 func configs14(tier string) []xplore.Config {
@@ -30,9 +31,18 @@ func configs14(tier string) []xplore.Config {
 	for _, uo := range []bool{false, true} {
 		for _, w1 := range [][]wop{{{"remove", ""}}, {{"upd", "a/b"}, {"remove", ""}}, {{"del", "a"}, {"remove", ""}}} {
 			for _, w2 := range [][]wop{{{"upd", "a/b"}}, {{"upd", "a/c"}, {"del", "a/b"}}} {
-				out = append(out, xplore.Config{Name: fmt.Sprintf("X=t1 updates_only=%v W(t1)=%s W(t2)=%s", uo, scriptName(w1), scriptName(w2)), Bound: bound, Data: cfg14{w1, w2, uo}})
+				out = append(out, xplore.Config{Name: fmt.Sprintf("X=t1 updates_only=%v W(t1)=%s W(t2)=%s", uo, scriptName(w1), scriptName(w2)), Bound: bound, Data: cfg14{w1: w1, w2: w2, updatesOnly: uo}})
 			}
 		}
+	}
+	// lifecycle calls on one target from two goroutines: a Reset racing the
+	// Remove (and re-Add) of the same target must serialise
+	// (no update in the second script: an update racing a Reset of the same
+	// target from another goroutine has no defined feed order - the cache writes
+	// the tree and then notifies - and the collector never does that: Reset and
+	// updates of a target come from its one manager goroutine)
+	for _, w1b := range [][]wop{{{"remove", ""}}, {{"remove", ""}, {"add", ""}}} {
+		out = append(out, xplore.Config{Name: fmt.Sprintf("X=t1 W(t1)=reset || W'(t1)=%s W(t2)=upd a/b", scriptName(w1b)), Bound: bound - 1, Data: cfg14{w1: []wop{{"reset", ""}}, w2: []wop{{"upd", "a/b"}}, w1b: w1b}})
 	}
 	return out
 }
@@ -44,7 +54,11 @@ func run14(cfg xplore.Config, ch vrt.Chooser, trace bool) (xplore.Outcome, *vrt.
 		w := newWorld([]string{"t1", "t2"})
 		setupInitial(w)
 		x := newStream(subSpec{target: "t1", paths: []string{"a"}, mode: pb.SubscriptionList_STREAM, updatesOnly: d.updatesOnly})
-		all := newStream(subSpec{target: "*", paths: []string{"a"}, mode: pb.SubscriptionList_STREAM})
+		allPaths := []string{"a"}
+		if len(d.w1b) > 0 {
+			allPaths = []string{"*"} // also sees the metadata leaves a Reset regenerates
+		}
+		all := newStream(subSpec{target: "*", paths: allPaths, mode: pb.SubscriptionList_STREAM})
 		w.streams = []*fstream{x, all}
 		for i, st := range w.streams {
 			st := st
@@ -65,9 +79,43 @@ func run14(cfg xplore.Config, ch vrt.Chooser, trace bool) (xplore.Outcome, *vrt.
 				done[i] = true
 			})
 		}
+		doneB := len(d.w1b) == 0
+		if len(d.w1b) > 0 {
+			vrt.GoNamed("writer-t1-b", func() {
+				for _, o := range d.w1b {
+					w.apply("t1", o)
+				}
+				doneB = true
+			})
+		}
 		vrt.Idle()
 		out.Nontrivial = true
 		out.Obs = fmt.Sprintf("X:%v %s | *: %s", x.status, renderLog(x.log), renderLog(all.log))
+		if len(d.w1b) > 0 {
+			// only the all-targets subscriber is judged here: what it holds for
+			// t1 after replay must be what the cache holds for t1
+			if !done[0] || !done[1] || !doneB {
+				viol(&out, "writer-blocked", "writers blocked: %v", vrt.ParkedInfo())
+				return
+			}
+			if all.returned {
+				viol(&out, "all-targets-stream-ended", "the all-targets subscription ended with %v", all.status)
+			} else {
+				rep, _ := replay(all.log)
+				want := w.expected(all.spec)
+				if renderMap(rep) != renderMap(want) {
+					viol(&out, "lifecycle-race-not-converged", "Reset racing %s on the same target: replaying the all-targets subscriber's responses yields\n  %s\nthe cache holds\n  %s\nlog: %s", scriptName(d.w1b), renderMap(rep), renderMap(want), renderLog(all.log))
+				}
+			}
+			for _, st := range w.streams {
+				st.cancel()
+			}
+			vrt.Idle()
+			if !vrt.AllDone() {
+				viol(&out, "deadlock", "threads never finished after cancel: %v", vrt.ParkedInfo())
+			}
+			return
+		}
 		if !done[0] || !done[1] {
 			viol(&out, "writer-blocked", "writers blocked: %v", vrt.ParkedInfo())
 			return
